@@ -24,7 +24,7 @@ BIN_LONG = {10: "kibi", 20: "mebi"}
 def make_forms(units, tier):
     """written forms [text, u, pk, pe]; the text <-> (prefix, unit) mapping itself is validated by the replay"""
     forms = []
-    metric_exps = [3, -3] if tier == "quick" else [3, -3, 6, -6, -9, -2]
+    metric_exps = [3, -3, -9] if tier == "quick" else [3, -3, 6, -6, -9, -2]
     bin_exps = [10] if tier == "quick" else [10, 20]
     for u in units:
         aliases = u["aliases"]
@@ -62,7 +62,7 @@ def write_table_module(units, forms, extra="", pair_all=False):
                 return i + 1
         return None
     partners = [x for x in (first_form("metre"), first_form("second"), idx.get("kg"), first_form("newton"), first_form("hour"),
-                            first_form("inch"), first_form("percent"), first_form("degree"), idx.get("km")) if x]
+                            first_form("inch"), first_form("percent"), first_form("degree"), idx.get("km"), idx.get("nm"), idx.get("ns")) if x]
     partners2 = [x for x in (first_form("metre"), first_form("second"), idx.get("kg")) if x]
     sum_partners = sorted({first_form(u["name"]) for u in units if first_form(u["name"])})
     lines = ["---- MODULE _gen_UnitTable ----", "\\* generated from the unit table of the current tree; do not edit",
@@ -91,7 +91,7 @@ def write_table_module(units, forms, extra="", pair_all=False):
     lines.append("====")
     path = os.path.join(nv.SPEC, "_gen_UnitTable.tla")
     tmp = path + ".%d" % os.getpid()
-    with open(tmp, "w") as f:
+    with open(tmp, "w", encoding="utf-8") as f:
         f.write("\n".join(lines) + "\n")
     os.replace(tmp, path)
     return path
